@@ -10,6 +10,7 @@ import (
 	"fmt"
 	nurl "net/url"
 	"sort"
+	"strings"
 
 	"github.com/go-shiori/dom"
 	"github.com/markusmobius/go-domdistiller/data"
@@ -336,3 +337,36 @@ func VerifStripAttributes(n *html.Node) { domutil.StripAttributes(n) }
 
 // VerifFastWordCount is stringutil.FastWordCounter.
 func VerifFastWordCount(s string) int { return stringutil.FastWordCounter{}.Count(s) }
+
+// VerifTitleInfo: the inputs and outputs of title extraction for root.
+type VerifTitleInfo struct {
+	Markup    string // markup title (first accessor with a non-empty one)
+	TitleText string // InnerText of the <title> element ("" when absent)
+	HasTitle  bool
+	H1Text    string // InnerText of the first <h1>
+	HasH1     bool
+	Headings  []string // trimmed TextContent of all h1, then all h2
+	Document  string   // getDocumentTitle
+	Result    string   // ContentExtractor.ExtractTitle
+}
+
+func VerifTitle(root *html.Node) VerifTitleInfo {
+	document := dom.QuerySelector(root, "html")
+	if document == nil {
+		document = root
+	}
+	ce := extractor.NewContentExtractor(root, nil, nil)
+	info := VerifTitleInfo{Markup: ce.Parser.Title(), Document: extractor.VerifDocumentTitle(document, ce.WordCounter), Result: ce.ExtractTitle()}
+	if t := dom.QuerySelector(document, "title"); t != nil {
+		info.HasTitle, info.TitleText = true, domutil.InnerText(t)
+	}
+	if h := dom.QuerySelector(document, "h1"); h != nil {
+		info.HasH1, info.H1Text = true, domutil.InnerText(h)
+	}
+	for _, tag := range []string{"h1", "h2"} {
+		for _, h := range dom.GetElementsByTagName(document, tag) {
+			info.Headings = append(info.Headings, strings.TrimSpace(dom.TextContent(h)))
+		}
+	}
+	return info
+}
